@@ -792,7 +792,7 @@ pub fn run_property(ctx: &Ctx, prop: &Property, only_sub: Option<&str>) -> i32 {
             let _ = std::fs::create_dir_all(&dir);
             let _ = std::fs::write(dir.join(format!("{}.json", id)), serde_json::to_string_pretty(&ev).unwrap());
             if hang_is_violation {
-                println!("{}: {}", f.sub, f.msg);
+                println!("{}: {}", f.sub, crate::util::printable(&f.msg));
                 println!("VIOLATION property={} replay={}", id, path.display());
                 std::process::exit(1);
             } else {
@@ -826,7 +826,7 @@ pub fn run_property(ctx: &Ctx, prop: &Property, only_sub: Option<&str>) -> i32 {
         );
         if let Some(f) = &r.failure {
             let path = write_replay(ctx, prop.id, f);
-            println!("  {}: {}", f.sub, crate::util::short(&f.msg, 1500).replace('\n', "\n    "));
+            println!("  {}: {}", f.sub, crate::util::printable(&crate::util::short(&f.msg, 1500)).replace('\n', "\n    "));
             violations.push((f.clone(), path));
         }
         results.push(r);
@@ -880,7 +880,7 @@ pub fn run_replay(prop: &Property, path: &std::path::Path) -> i32 {
             0
         }
         Ok(Err(m)) => {
-            println!("{}", m);
+            println!("{}", crate::util::printable(&m));
             println!("VIOLATION property={} replay={}", prop.id, path.display());
             1
         }
